@@ -31,6 +31,15 @@ Two further dimensions of a case:
          time-outs runs.  For the model waiting is a stutter step: `W`/`w` are dropped from the
          schedule it replays.
 
+  prio   `[[via, at, [commands]]]` (sub-run `prio`, judged by the oracle only - the Lean model has no
+         priority queue): bursts of 2-4 `send_now()` commands queued at the same moment while the job is
+         being streamed - by the harness between two acknowledgements (`harness`: as soon as `at`
+         lines have been written since `startprint`) or, re-entrantly, from a callback of the sender
+         running in the print thread (`sendcb` / `printsendcb` / `layerchangecb`: on its `at`-th call).
+         Priority commands are not part of the job: they travel unnumbered, each exactly once, and the
+         job clauses of the property (framing, numbering, resend, accepted log) apply to the job lines
+         around them unchanged.  Transmission indices (fault sets) count them like any other line.
+
 The recorded (job, fault set, e0, schedule) is replayed on the Lean model; compared: the exact
 sequence of lines written to the port, the firmware's accepted log and reply stream, the sender's
 final state and the SplitTriple monitor.  A free-running sub-run (real `time.sleep`, a firmware
@@ -38,6 +47,7 @@ thread with wall-clock latencies) is judged by the oracle only.
 """
 from __future__ import annotations
 
+import collections
 import itertools
 import logging
 import multiprocessing as mp
@@ -134,7 +144,83 @@ SLOW_POLL = 0.01  # s: read time-out of the fake port in cases with a slow reply
 WAITS = {"W": "exec", "w": "ack"}
 
 
-def stream_job(ses, job, e0, faults, policy, rnd, fixed=None, early=None, slow=None) -> dict:
+# A burst queued between startprint() returning and the print thread having stopped the idle sender's send thread
+# (`_print` -> `_stop_sender`, up to the 0.1 s of its queue poll) is taken by that send thread: `_sender` waits for
+# `clear`, writes the command and does NOT lower `clear`, so the print thread sends the next line with the command's
+# `ok` still outstanding - two lines in flight for the rest of the job, and a corrupted last line is never resent
+# (the job ends on the `ok` of the last-but-one line).  Seen on the pinned tree with the free-running sub-run (job of 3
+# lines, 2 commands queued right after startprint, first transmission of the last line corrupted: last line never
+# accepted, no SplitTriple).  Reported, not registered: this sub-family is generated only with
+# C15_PRIO_AT_STARTPRINT=1; by default the harness queues its bursts once the print thread has taken over (counted
+# as `prio:burst-held-until-the-print-thread-took-over`), and the stepped mode can only queue them then anyway.
+PRIO_AT_STARTPRINT = os.environ.get("C15_PRIO_AT_STARTPRINT", "0") == "1"
+PRIO_VIAS = ("harness", "sendcb", "printsendcb", "layerchangecb")
+SEND_THREAD_WAIT = 1.5  # s: how long a queued priority command may take to appear on the wire once the job is over
+
+
+def unnumbered(lines) -> int:
+    return sum(1 for t in lines if not sim.FRAME_RE.match(t))
+
+
+class PrioFeed:
+    """the case's bursts of `send_now()` commands: `[[via, at, [commands]]]`.  A burst is queued in one go
+    (consecutive `send_now()` calls, nothing else in between) either by the harness (`poll`, once `at`
+    lines have been written since startprint) or from inside the sender's own callback `via` on its
+    `at`-th call since startprint (re-entrant use of the API, what a GUI host does on a layer change)."""
+
+    def __init__(self, pc, prio, errors: list):
+        self.pc = pc
+        self.bursts = [(str(v), int(a), [str(c) for c in cmds]) for v, a, cmds in (prio or [])]
+        for v, _, _ in self.bursts:
+            if v not in PRIO_VIAS:
+                raise core.Infra(f"unknown way to queue a priority burst: {v!r}")
+        self.fired: list[str] = []  # commands handed to send_now(), in order
+        self.done: set[int] = set()
+        self.calls: collections.Counter = collections.Counter()
+        self.errors = errors
+        self.lock = threading.Lock()
+
+    def _fire(self, j: int):
+        with self.lock:
+            if j in self.done:
+                return
+            self.done.add(j)
+            for c in self.bursts[j][2]:
+                self.fired.append(c)
+                self.pc.send_now(c)
+
+    def _callback(self, via: str):
+        def cb(*a, **k):
+            try:
+                with self.lock:
+                    self.calls[via] += 1
+                    n = self.calls[via]
+                for j, (v, at, _) in enumerate(self.bursts):
+                    if v == via and at == n:
+                        self._fire(j)
+            except BaseException as e:  # never let harness trouble look like a failing callback of the host
+                self.errors.append(e)
+
+        return cb
+
+    def install(self):
+        for via in {v for v, _, _ in self.bursts} - {"harness"}:
+            setattr(self.pc, via, self._callback(via))
+
+    def remove(self):
+        for via in {v for v, _, _ in self.bursts} - {"harness"}:
+            setattr(self.pc, via, None)
+
+    def poll(self, ntx: int):
+        for j, (v, at, _) in enumerate(self.bursts):
+            if v == "harness" and j not in self.done and ntx >= at:
+                self._fire(j)
+
+    def unfired(self) -> int:
+        return len(self.bursts) - len(self.done)
+
+
+def stream_job(ses, job, e0, faults, policy, rnd, fixed=None, early=None, slow=None, prio=None) -> dict:
     """`startprint(job)` on the session's printcore and drive it to quiescence (or out of budget).
 
     `early` (schedule dimension "fast device / slow host"): for the transmissions it selects, the
@@ -178,6 +264,8 @@ def stream_job(ses, job, e0, faults, policy, rnd, fixed=None, early=None, slow=N
     seen_new: set[str] = set()
     seen_frames: set[str] = set()
     cb_error: list[BaseException] = []
+    feed = PrioFeed(pc, prio, cb_error) if prio else None
+    gave_up = False
 
     def on_write(line):
         # runs in the writing thread, while the harness thread is blocked in startprint()/gate.wake()
@@ -186,6 +274,8 @@ def stream_job(ses, job, e0, faults, policy, rnd, fixed=None, early=None, slow=N
             idx = len(ser.tx) - base - 1
             if threading.get_ident() == ser.reader:
                 return  # written by the thread that reads the port: it cannot be answered inside its own write()
+            if threading.current_thread().name == "send thread":
+                return  # a priority command written after the job, concurrently with the harness: answered by F / L
             if s_open:
                 s_open = False
             else:  # a further _sendnext pass of the same wake-up: the model needs its own S for it
@@ -228,6 +318,8 @@ def stream_job(ses, job, e0, faults, policy, rnd, fixed=None, early=None, slow=N
 
     ser.on_write = on_write if early else None
     try:
+        if feed:
+            feed.install()
         if not pc.startprint(gcoder.GCode(list(job))):
             raise core.Infra("startprint refused (not online, or still printing)")
         s_open = False
@@ -235,6 +327,22 @@ def stream_job(ses, job, e0, faults, policy, rnd, fixed=None, early=None, slow=N
         for stepno in range(BUDGET):
             if cb_error:
                 break
+            if feed:
+                # the harness queues its bursts here: the print thread is parked in its poll (a line is in
+                # flight, or its acknowledgement has been processed and the sender has not acted on it yet)
+                feed.poll(len(ser.tx) - base)
+                if not gave_up and not pc.printing and not ses.print_alive():
+                    # the job is over: what is still queued goes out through the send thread, which is not
+                    # stepped - wait (bounded) until every queued command is on the wire
+                    end = time.monotonic() + SEND_THREAD_WAIT
+                    while True:
+                        n = len(feed.fired)
+                        if unnumbered(ser.tx[base:]) >= n and len(feed.fired) == n:
+                            break
+                        if time.monotonic() > end:
+                            gave_up = True
+                            break
+                        time.sleep(0.002)
             acts = []
             if len(ser.tx) - base > consumed:
                 acts.append("F")
@@ -290,6 +398,8 @@ def stream_job(ses, job, e0, faults, policy, rnd, fixed=None, early=None, slow=N
                 dirty = False
     finally:
         ser.on_write = None
+        if feed:
+            feed.remove()
     if cb_error:
         if isinstance(cb_error[0], sim.StepTimeout):
             raise cb_error[0]
@@ -317,6 +427,8 @@ def stream_job(ses, job, e0, faults, policy, rnd, fixed=None, early=None, slow=N
         ),
         pend=(len(ser.tx) - base - consumed, len(pending)),
     )
+    if feed:
+        res.update(prio_fired=list(feed.fired), prio_unfired=feed.unfired(), prio_calls=dict(feed.calls))
     return res
 
 
@@ -340,7 +452,7 @@ def impl_run(case: dict) -> dict:
                     res["errors"] = []
                     return res
             res = stream_job(ses, case["job"], case["e0"], case["faults"], case["policy"], rnd, case.get("sched"),
-                             case.get("early"), case.get("slow"))
+                             case.get("early"), case.get("slow"), case.get("prio"))
     except sim.StepTimeout as e:
         res["error"] = f"hang: {e}"
     res["errors"] = [e for e in errs if "died" in e or "Can't" in e or "rubbish" in e]
@@ -384,9 +496,20 @@ def oracle(case: dict, r: dict) -> list[tuple[str, str, dict]]:
     # (1) every transmission is a well-formed frame; numbering consecutive from 0 after `M110 N-1`.
     #     What the sender transmits while it streams a job is the reset, the job's lines and retransmissions of
     #     them - "every non-comment line exactly once" leaves no room for anything else on the link.
+    #     Commands the host queued with send_now() while the job was running (sub-run `prio`) are not job lines:
+    #     they travel unnumbered, each exactly once; everything else on the link is judged as before.
+    prio = r.get("prio_fired")  # None: nothing but the job was given to the sender
+    owed = collections.Counter(prio or [])
     nxt, seen = 0, {}
     for i, t in enumerate(tx):
         m = sim.FRAME_RE.match(t)
+        if not m and owed[t] > 0:
+            owed[t] -= 1
+            continue
+        if not m and prio is not None and t in prio:
+            out.append(("priority", f"transmission {i}: priority command {t!r} transmitted again (queued {prio.count(t)} "
+                                    f"time(s) with send_now(), transmitted more often)", {}))
+            break
         if not m:
             bare = t.strip()
             if bare == RESET or (nxt < len(want) and bare == want[nxt]) or bare in want[:nxt]:
@@ -407,7 +530,9 @@ def oracle(case: dict, r: dict) -> list[tuple[str, str, dict]]:
             if n != -1:
                 out.append(("frame", f"transmission {i} {t!r}: reset not numbered -1", {}))
                 break
-            if i != 0 and not (i == len(tx) - 1 and r["finished"]):
+            # the closing reset is the job's last transmission; priority commands still queued follow it
+            tail_ok = i == len(tx) - 1 or (prio is not None and unnumbered(tx[i + 1:]) == len(tx) - i - 1)
+            if i != 0 and not (tail_ok and r["finished"]):
                 out.append(("frame", f"line-number reset written in the middle of the job (transmission {i})", {}))
                 break
             continue
@@ -428,8 +553,12 @@ def oracle(case: dict, r: dict) -> list[tuple[str, str, dict]]:
         else:
             out.append(("frame", f"transmission {i} numbered {n}, expected a number <= {nxt}", {}))
             break
+    else:
+        lost = sorted((+owed).elements())
+        if lost and not r["budget"]:
+            out.append(("priority", f"queued with send_now() while the job was running but never transmitted: {lost!r}", {}))
     # (2) a resend request makes transmission restart from the requested line
-    if not any(tag in ("frame", "unsolicited") for tag, _, _ in out):
+    if not any(tag in ("frame", "unsolicited", "priority") and "never transmitted" not in msg for tag, msg, _ in out):
         sent_new, pending_rs, last = 0, None, None
         for kind, line in r["events"]:
             if kind == "r":
@@ -440,6 +569,8 @@ def oracle(case: dict, r: dict) -> list[tuple[str, str, dict]]:
                     pending_rs = n if 0 <= n < sent_new else sent_new
             else:
                 m = sim.FRAME_RE.match(line)
+                if m is None:
+                    continue  # a priority command (checked above): not a line of the job, no claim about its place
                 n, cmd = int(m.group(1)), m.group(2)
                 if cmd == RESET:
                     last, pending_rs = None, None
@@ -458,8 +589,9 @@ def oracle(case: dict, r: dict) -> list[tuple[str, str, dict]]:
     # (3) accepted log: safety always, completeness once nothing more can happen
     acc = r["acc"]
     info = dict(split=r["split"], finished=r["finished"], acc=acc, want=want)
-    if r["raw"]:
-        out.append(("frame", f"the firmware received unnumbered lines {r['raw'][:3]!r} during the job", {}))
+    stray = sorted((collections.Counter(r["raw"]) - collections.Counter(prio or [])).elements())
+    if stray:
+        out.append(("frame", f"the firmware received unnumbered lines {stray[:3]!r} during the job", {}))
     if r["budget"]:
         out.append(("budget", f"no quiescent state within {BUDGET} schedule actions", info))
     elif acc != want and r.get("stalled"):
@@ -654,6 +786,76 @@ def gen_early(rng: random.Random, span: int) -> list[int]:
     return pat
 
 
+PRIO_CMDS = ["M105", "M114", "M117 Layer {a}", "M117 {a}%", "M108", "M220 S{a}", "M221 S9{b}", "M106 S{a}", "M107", "M27",
+             "M73 P{a}", "M104 S2{a}", "M140 S6{b}", "M155 S{b}", "M105", "M400"]
+
+
+def gen_prio_job(rng: random.Random) -> list[str]:
+    """a small print: layers (a Z move, then extruding moves - what makes the sender announce a layer change),
+    now and then a comment, a blank or a host line in between, a short tail"""
+    job = rng.choice([[], ["G28"], ["G28 ; home", "G92 E0"], ["; generated", "M82"]])
+    e, z = 0, 0
+    for _ in range(rng.randint(2, 4)):
+        z += 2
+        job.append(rng.choice([f"G1 Z0.{z}", f"G1 Z0.{z} F600", f"G0 Z0.{z} ; layer"]))
+        for _ in range(rng.randint(1, 3)):
+            e += 1
+            job.append(f"G1 X{rng.randint(0, 40)} Y{rng.randint(0, 40)} E{e}")
+            if rng.random() < 0.15:
+                job.append(rng.choice(["; perimeter", "", "(infill)", ";@beep", "M105"]))
+    return job + rng.choice([[], ["M104 S0"], ["M104 S0", "M84"], ["M84"], ["G1 X0 Y0", "M84 ; off"]])
+
+
+def gen_prio_case(rng: random.Random, policies=None) -> dict:
+    """a job during which the host queues 1-2 bursts of 2-4 send_now() commands, with corrupted transmissions
+    placed with respect to what then follows on the link: mostly the last job line (on its first transmission,
+    also again when it is resent), a line in the middle as well, none, or anywhere"""
+    if rng.random() < 0.7:
+        job = gen_prio_job(rng)
+    else:
+        job = [gen_line(rng, k) for k in range(rng.choice([3, 4, 5, 6, 8]))]
+    ncmd = len(job_commands(job))
+    prio = []
+    for _ in range(rng.choice([1, 1, 1, 2])):
+        via = rng.choice(["harness", "harness", "printsendcb", "sendcb", "layerchangecb"])
+        if via == "harness":  # lines written since startprint (1 = the reset only)
+            at = rng.randint(1, max(1, ncmd))
+        elif via == "layerchangecb":
+            at = rng.choice([1, 1, 2])
+        elif via == "sendcb":
+            # call 1 is the reset, written by the caller of startprint() while the send thread of the idle sender is
+            # still alive: it would take the command and wait for the reset's `ok` with the print thread waiting for
+            # it in turn - a state the stepped schedule (print thread parked in its poll) cannot express (and see
+            # PRIO_AT_STARTPRINT: the free-running sub-run shows what that send thread then does to the job)
+            at = rng.randint(2, max(2, ncmd))
+        else:
+            at = rng.randint(1, max(1, ncmd - 1))
+        cmds = [rng.choice(PRIO_CMDS).format(a=rng.randint(0, 99), b=rng.randint(0, 9)) for _ in range(rng.choice([2, 2, 3, 4]))]
+        prio.append([via, at, cmds])
+    npri = sum(len(b[2]) for b in prio)
+    last = ncmd + npri  # first transmission of the last job line when every burst went out before it
+    style = rng.random()
+    if style < 0.45:
+        faults = {last}
+    elif style < 0.6:
+        faults = {last, last + 1}
+    elif style < 0.75:  # a line in the middle (its resend shifts what follows by one), and the last line
+        faults = {rng.randint(1, max(1, last - 1)), last + 1}
+    elif style < 0.85:
+        faults = set()
+    else:
+        faults = {rng.randint(1, last + 3) for _ in range(rng.randint(1, 3))}
+    pol = rng.choice(policies or ["eager", "burst", "random", "random", "mixed", "bursty", "fwfirst", "lagfw"])
+    c = dict(job=job, faults=sorted(faults), e0=rng.choice([1, 1, 1, 0, 2, 5]), policy=pol, seed=rng.randrange(1 << 30),
+             prio=prio)
+    if rng.random() < 0.25:
+        c["early"] = gen_early(rng, last + 4)
+    conn = gen_conn(rng)
+    if conn:
+        c["conn"] = conn
+    return c
+
+
 def case_repr(c: dict, trace: str | None = None) -> dict:
     d = dict(job=c["job"], faults=sorted(c["faults"]), e0=c["e0"], policy=c["policy"], seed=c["seed"])
     if c.get("warmup"):
@@ -664,6 +866,8 @@ def case_repr(c: dict, trace: str | None = None) -> dict:
         d["conn"] = dict(c["conn"])
     if c.get("slow"):
         d["slow"] = [list(x) for x in c["slow"]]
+    if c.get("prio"):
+        d["prio"] = [[v, a, list(cmds)] for v, a, cmds in c["prio"]]
     if trace is not None:
         d["sched"] = trace
     elif c.get("sched") is not None:
@@ -759,7 +963,21 @@ def judge(R: core.Run, c: dict, r: dict, label: str, validated: bool = True):
                 *[f"slow-reply:{w}:{'>=9' if k >= 9 else '<9'} time-outs" for _, k, w in c["slow"]])
     if r.get("rep"):
         R.count(f"resend-requests:{min(sum(1 for x in r['rep'] if x.startswith('r')), 5)}")
+    if c.get("prio"):
+        count_prio(R, c, r)
     record_failures(R, cr, fails)
+
+
+def count_prio(R: core.Run, c: dict, r: dict):
+    tx = r.get("tx") or []
+    R.count("prio-cases", *[f"prio:via:{v}" for v, _, _ in c["prio"]], *[f"prio:burst-of:{len(cmds)}" for _, _, cmds in c["prio"]],
+            f"prio:bursts-not-queued(callback never ran that often):{r.get('prio_unfired', '?')}",
+            f"prio:commands-transmitted:{min(unnumbered(tx), 8)}")
+    resets = [i for i, t in enumerate(tx) if i and sim.FRAME_RE.match(t) and sim.FRAME_RE.match(t).group(2) == RESET]
+    if resets and unnumbered(tx[resets[-1]:]):
+        R.count("prio:some-sent-after-the-job(send thread)")
+    if r.get("prio_held"):
+        R.count("prio:burst-held-until-the-print-thread-took-over")
 
 
 def record_failures(R: core.Run, cr: dict, fails):
@@ -914,19 +1132,35 @@ def timed_run(case: dict) -> dict:
             else:
                 tf = _TimedFirmware(ser, fw, case["latency"], case["gap"], case.get("slow"))
             ser.on_write = tf.on_write
+            cb_error: list[BaseException] = []
+            feed = PrioFeed(pc, case["prio"], cb_error) if case.get("prio") else None
+            if feed:
+                feed.install()
             if not pc.startprint(gcoder.GCode(list(case["job"]))):
                 raise core.Infra("startprint refused (not online?)")
             end = time.monotonic() + 6
             quiet_since = None
             budget, stalled = True, False
+            taken_over, held = PRIO_AT_STARTPRINT, False
             progress, progress_at = None, time.monotonic()
             storm = 60 + 12 * len(case["job"])  # far more transmissions than any terminating run needs
             while time.monotonic() < end and len(ser.tx) - base < storm:
+                if feed:
+                    # from the harness thread, whatever the sender is doing just now - but (see PRIO_AT_STARTPRINT)
+                    # not before the print thread has stopped the send thread of the idle sender
+                    st = pc.send_thread
+                    taken_over = taken_over or st is None or not st.is_alive()
+                    if taken_over:
+                        feed.poll(len(ser.tx) - base)
+                    elif feed.unfired() and not held and any(v == "harness" and len(ser.tx) - base >= a for v, a, _ in feed.bursts):
+                        held = True
                 drained = tf.busy == 0 and ser.rxq.empty()
                 idle = (not pc.printing) and pc.print_thread is None and drained
                 if idle:
                     quiet_since = quiet_since or time.monotonic()
-                    if time.monotonic() - quiet_since > 0.1:
+                    # priority commands still queued when the job ends go out through the send thread
+                    owed = bool(feed) and unnumbered(ser.tx[base:]) < len(feed.fired)
+                    if time.monotonic() - quiet_since > (SEND_THREAD_WAIT if owed else 0.1):
                         budget = False
                         break
                 else:
@@ -941,6 +1175,10 @@ def timed_run(case: dict) -> dict:
                     break
                 time.sleep(0.005)
             ser.on_write = None
+            if feed:
+                feed.remove()
+                if cb_error:
+                    raise core.Infra(f"priority-burst callback failed: {cb_error[0]!r}")
             if getattr(tf, "error", None):
                 raise tf.error
             with tf.cv:
@@ -963,6 +1201,8 @@ def timed_run(case: dict) -> dict:
                 events=[list(e) for e in ser.events[ev_base:]], split=split, budget=budget,
                 finished=(not pc.printing) and pc.print_thread is None, trace="", stalled=stalled,
             )
+            if feed:
+                res.update(prio_fired=list(feed.fired), prio_unfired=feed.unfired(), prio_calls=dict(feed.calls), prio_held=held)
     except sim.StepTimeout as e:
         res["error"] = f"hang: {e}"
     res["errors"] = [e for e in errs if "died" in e or "Can't" in e or "rubbish" in e]
@@ -971,6 +1211,7 @@ def timed_run(case: dict) -> dict:
 
 # latency < 0: the reply is consumed by the listener before write() returns (`_InWriteFirmware`)
 # `slowcmd`: some command keeps the device silent for several read time-outs, replies 2 ms apart otherwise
+PRIO_LATENCIES = [("slow", 0.004, 0.0), ("slower", 0.008, 0.0), ("gap", 0.002, 0.02)]
 LATENCIES = [("fast", 0.0, 0.0), ("slow", 0.004, 0.0), ("gap", 0.002, 0.02), ("inwrite", -1.0, 0.0),
              ("slowcmd", 0.002, 0.0)]
 
@@ -981,11 +1222,12 @@ def timed_oracle(case, r):
     return [(t, m, i) for t, m, i in oracle(case, r) if t not in ("resend", "budget")]
 
 
-def run_timed(R: core.Run, pool: Pool, n: int):
+def run_timed(R: core.Run, pool: Pool, n: int, n_prio: int = 0):
     cases = []
-    for k in range(n):
-        c = gen_case(R.rng)
-        name, lat, gap = LATENCIES[k % len(LATENCIES)]
+    for k in range(n + n_prio):
+        # the last n_prio cases: bursts of priority commands against a device that takes its time per line
+        c = gen_case(R.rng) if k < n else gen_prio_case(R.rng)
+        name, lat, gap = LATENCIES[k % len(LATENCIES)] if k < n else PRIO_LATENCIES[k % len(PRIO_LATENCIES)]
         c.update(policy="timed-" + name, latency=lat, gap=gap)
         c.pop("early", None)  # step-mode dimension; its free-running counterpart is the `inwrite` profile
         if name == "slowcmd":
@@ -993,7 +1235,7 @@ def run_timed(R: core.Run, pool: Pool, n: int):
                 c["slow"] = gen_slow(R.rng, len(job_commands(c["job"])), c["faults"])
         else:
             c.pop("slow", None)
-        if len(c["job"]) > 8:
+        if len(c["job"]) > 8 and k < n:
             c["job"] = c["job"][:8]
         cases.append(c)
     results = pool.map(timed_run, cases)
@@ -1014,6 +1256,9 @@ def run_timed(R: core.Run, pool: Pool, n: int):
             R.count("timed-inconclusive(no quiescence before the wall-clock deadline)")
         R.count("timed", c["policy"], "timed-split" if r.get("split") else "timed-nosplit",
                 "timed-complete" if not fails else "timed-fails:" + fails[0][0])
+        if c.get("prio"):
+            R.count("timed-prio")
+            count_prio(R, c, r)
         record_failures(R, cr, fails)
 
 
@@ -1042,6 +1287,19 @@ CORPUS = [
     dict(job=["G28", "G1 X1", "G1 X2", "M84"], faults=[4], e0=1, policy="burst", seed=4, slow=[[1, 12, "exec"]]),
 ]
 
+# priority commands queued in bursts while the job is streamed (oracle only: the model has no priority queue)
+CORPUS_PRIO = [
+    # a host showing progress: two commands on every layer change; the last line damaged on the wire
+    dict(job=["G1 Z0.2", "G1 X10 Y0 E1", "G1 X10 Y10 E2", "G1 Z0.4", "G1 X0 Y10 E3", "G1 X0 Y0 E4", "M84"],
+         faults=[9], e0=1, policy="burst", seed=6, prio=[["layerchangecb", 1, ["M117 Layer 1", "M105"]]]),
+    # three commands queued by the caller between two acknowledgements, a middle line and the last one damaged
+    dict(job=["G28", "G1 X1", "G1 X2 ; c", "G1 X3", "M84"], faults=[3, 9], e0=1, policy="eager", seed=7,
+         prio=[["harness", 2, ["M105", "M114", "M105"]]]),
+    # queued while the last line is in flight: whatever is left goes out after the job
+    dict(job=["G1 X0", "G1 X1", "G1 X2"], faults=[], e0=0, policy="lagfw", seed=8,
+         prio=[["printsendcb", 3, ["M400", "M105"]], ["sendcb", 2, ["M27", "M73 P1"]]]),
+]
+
 
 def run(R: core.Run):
     R.rule = (
@@ -1053,10 +1311,20 @@ def run(R: core.Run):
         "x connection options (in 60%: 6 port names, 5 baud rates, dtr None/False/True, opened by connect / the "
         "constructor / two connect calls / a reconnect) x (in 10%, and in the free-running `slowcmd` profile) 1-2 "
         "transmissions whose reply is preceded by 3-33 read time-outs of silence; "
+        "sub-run `prio` (not sent to the model): print-like jobs with layer changes (70%) or random jobs, 1-2 bursts of 2-4 "
+        "send_now() commands queued at one moment - by the harness between two acknowledgements or from sendcb / printsendcb / "
+        "layerchangecb inside the print thread - x faults on the last job line's first transmission (45%), on it and its resend "
+        "(15%), on a middle line and the last (15%), none (10%), anywhere (15%) x the 8 policies x early patterns (25%) x "
+        "connection options; free-running with 4 / 8 ms per line and a Resend-ok gap; "
         "non-trivial = at least 2 commands and (a fault or a skipped line); distinct by hash of (job, faults, e0, schedule)"
     )
     R.assumptions = [
-        "job lines contain no M110 of their own and no ';@pause' host command; the priority queue stays empty while printing",
+        "job lines contain no M110 of their own and no ';@pause' host command; the priority queue stays empty while printing "
+        "except in the `prio` sub-runs (bursts of send_now() commands: real sender + oracle only, the Lean model has no "
+        "priority queue) - there the commands must each be transmitted once, unnumbered, and the job clauses apply to the "
+        "job lines; the firmware twin cannot detect damage to an unnumbered line (a fault index falling on one has no effect); "
+        "no burst is queued between startprint() returning and the print thread having stopped the idle sender's send "
+        "thread (C15_PRIO_AT_STARTPRINT=1 generates that in the free-running sub-run)",
         "a corrupted transmission is always detected by the firmware (checksum mismatch); replies are never corrupted or lost",
         "firmware = Marlin-style twin (harness/sim_serial.py): expected-line check, M110 exempt, Error/Resend/ok triple",
         "schedules are realised at the granularity of the two atomic sender steps (one _sendnext pass, one _listen line); "
@@ -1081,6 +1349,11 @@ def run(R: core.Run):
         cases = [gen_case(R.rng) for _ in range(R.n(120, 1500))]
         run_batch(R, pool, cases, "random")
         run_timed(R, pool, R.n(12, 150))
+        # priority commands queued in bursts during the job (generated last: the streams above are the same
+        # as without this sub-run for a given seed); implementation + oracle only
+        run_batch(R, pool, list(CORPUS_PRIO), "corpus-prio", compare=False)
+        run_batch(R, pool, [gen_prio_case(R.rng) for _ in range(R.n(48, 700))], "prio", compare=False)
+        run_timed(R, pool, 0, R.n(6, 60))
         if R.thorough:
             ex = list(exhaustive_cases())
             run_batch(R, pool, ex, "exhaustive")
@@ -1095,7 +1368,7 @@ def run(R: core.Run):
         if R.broken and not unlisted:
             # failing-input search: a fresh batch biased towards faults, judged by the oracle only
             R.search_batches += 1
-            extra = [gen_case(R.rng) for _ in range(R.n(160, 600))]
+            extra = [gen_case(R.rng) for _ in range(R.n(160, 600))] + [gen_prio_case(R.rng) for _ in range(R.n(40, 200))]
             for c, r in zip(extra, pool.map(impl_run, extra)):
                 R.evaluations += 1
                 record_failures(R, case_repr(c, r.get("trace")), oracle(c, r))
@@ -1117,6 +1390,18 @@ def replay(data):
         fails = timed_oracle(c, r)
         print("impl  :", r.get("tx"), r.get("acc"))
         print("oracle:", fails or "ok")
+        return 1 if fails else 0
+    if c.get("prio"):  # outside the Lean model: real sender + oracle
+        r = impl_run(c)
+        if c.get("sched") is not None and ((r.get("error") and "not enabled" in str(r["error"])) or r.get("budget")):
+            print("replay: the recorded schedule does not apply to this tree; re-running under policy", c.get("policy"))
+            c.pop("sched", None)
+            r = impl_run(c)
+        fails = oracle(c, r)
+        print("impl  :", r.get("error") or impl_record(r))
+        print("tx    :", r.get("tx"))
+        print("accept:", r.get("acc"), " wanted:", job_commands(c["job"]), " priority commands queued:", r.get("prio_fired"))
+        print("oracle:", [(t, m) for t, m, _ in fails] or "ok")
         return 1 if fails else 0
     r = impl_run(c)
     if r.get("error") and "not enabled" in str(r["error"]):
